@@ -16,7 +16,7 @@ import multiprocessing as mp
 
 from . import world as W
 from .core import Run, Violation, Foreign, HarnessError, HANDLERS  # noqa: F401
-from . import ops_struct, ops_meta, ops_data, ops_tree  # noqa: F401  (registers ops)
+from . import ops_struct, ops_meta, ops_data, ops_tree, ops_refuse  # noqa: F401  (registers ops)
 
 VERIF = os.path.dirname(os.path.dirname(os.path.abspath(__file__)))
 OUT = os.path.join(VERIF, "out")
@@ -68,6 +68,8 @@ def _execute(profile, seed, knobs, ops):
             for o in ops:
                 run.apply(o)
         run.finish()
+    except ops_refuse.StopRun as sr:
+        out["stopped"] = str(sr)
     except Violation as v:
         out["violation"] = {"signature": v.signature, "oracle": v.oracle, "site": v.site,
                             "cls": v.cls, "msg": v.msg, "step": run.step if run else None}
@@ -193,11 +195,19 @@ def _worker_chunk(args):
     agg = {"runs": 0, "ops": 0, "sim_seconds": 0, "stats": Counter(), "abstract": set(),
            "nontrivial": set(), "violations": [], "foreign": Counter(), "errors": [], "digests": [],
            "samples": []}
+    os.makedirs(os.path.join(OUT, "inflight"), exist_ok=True)
+    marker = os.path.join(OUT, "inflight", "%d" % os.getpid())
     for i in range(lo, hi):
         if time.time() > deadline:
             break
         seed = seed_for(base, profile.prop, i)
+        with open(marker, "w") as mf:
+            mf.write("%s %d %d\n" % (profile.name, i, seed))
+        # a run that hangs inside C code kills this worker (never a verdict): the parent reports
+        # a harness error naming the in-flight seed
+        faulthandler.dump_traceback_later(RUN_TIMEOUT_S, exit=True)
         r = run_generate(profile, seed)
+        faulthandler.cancel_dump_traceback_later()
         agg["runs"] += 1
         agg["ops"] += r.get("steps", 0)
         agg["sim_seconds"] += r.get("sim_seconds", 0)
@@ -216,7 +226,26 @@ def _worker_chunk(args):
             agg["errors"].append({"index": i, "seed": seed, "error": r["error"], "ops": r.get("ops")})
         if i - lo < 1 and r.get("ops") and not r["violation"]:
             agg["samples"].append(r["ops"])
+    try:
+        os.remove(marker)
+    except OSError:
+        pass
     return agg
+
+
+RUN_TIMEOUT_S = 120
+
+
+def _inflight():
+    d = os.path.join(OUT, "inflight")
+    out = []
+    if os.path.isdir(d):
+        for n in os.listdir(d):
+            try:
+                out.append(open(os.path.join(d, n)).read().strip())
+            except OSError:
+                pass
+    return out
 
 
 def run_batch(profile, base_seed, n_runs, jobs, budget_s, chunk=20, start=0):
@@ -232,18 +261,33 @@ def run_batch(profile, base_seed, n_runs, jobs, budget_s, chunk=20, start=0):
     else:
         ctx = mp.get_context("fork")
         results = []
-        with ProcessPoolExecutor(max_workers=jobs, mp_context=ctx) as ex:
+        d = os.path.join(OUT, "inflight")
+        if os.path.isdir(d):
+            for n in os.listdir(d):
+                os.remove(os.path.join(d, n))
+        ex = ProcessPoolExecutor(max_workers=jobs, mp_context=ctx)
+        try:
             futs = [ex.submit(_worker_chunk, t) for t in tasks]
             pending = set(futs)
-            hard = deadline + 120
+            hard = deadline + RUN_TIMEOUT_S + 60
             while pending:
                 done, pending = wait(pending, timeout=5, return_when=FIRST_COMPLETED)
+                for f in done:
+                    if f.exception() is not None:
+                        raise HarnessError("worker died (%r); in-flight runs: %s" % (f.exception(), _inflight()))
                 if time.time() > hard:
-                    for f in pending:
-                        f.cancel()
-                    raise HarnessError("batch exceeded hard deadline (hung worker?)")
+                    raise HarnessError("batch exceeded hard deadline; in-flight runs: %s" % (_inflight(),))
             for f in futs:
                 results.append(f.result())
+        finally:
+            procs = list(getattr(ex, "_processes", {}).values())
+            ex.shutdown(wait=False, cancel_futures=True)
+            for p_ in procs:
+                try:
+                    if p_.is_alive():
+                        p_.kill()
+                except Exception:  # noqa
+                    pass
     for a in results:
         total["runs"] += a["runs"]
         total["ops"] += a["ops"]
